@@ -36,6 +36,11 @@ def updateSelectedAux {α β : Type} (pred : β → Bool) (f : Nat → α → α
 def updateSelected {α β : Type} (v : List α) (y : List β) (pred : β → Bool) (f : Nat → α → α) : List α :=
   updateSelectedAux pred f v y 0
 
+/-- `x.powi(n)` for a non-negative exponent -/
+def powi {R : Type} [One R] [Mul R] (x : R) : Nat → R
+  | 0 => 1
+  | n + 1 => powi x n * x
+
 /-- `std::f64::consts` used by the public constructors -/
 class AngleConsts (R : Type) where
   /-- `FRAC_PI_2` -/
